@@ -1,18 +1,23 @@
 // Package c17 decides property C17: a parsed font can be shared by concurrent goroutines.
 //
-// A rapid generator draws random *programs*: N ∈ {2, 8, 32, 64} goroutines, each with a random
-// sequence of operations over a shared pool of *font.Font values (TrueType, CFF, CFF2, variable,
-// AAT/morx, bitmap, Indic), GOMAXPROCS ∈ {2, 16} and per-operation scheduling actions (Gosched /
-// tiny sleeps), all drawn from the program. Only what the documentation declares shareable is
-// shared (*font.Font and package-level tables); faces, hb fonts, buffers, shapers, segmenters and
-// font maps are owned by one goroutine.
+// A rapid generator draws random *programs*: a pool of 3–5 shared *font.Font values drawn from
+// per-stratum candidate lists (about 60 corpus fonts: the ones with the largest layout tables and
+// the smallest ones of each of truetype, cff, cff2, variable, aat, bitmap, plain), a prologue of
+// font loads (also of damaged variants of the files) run before the goroutines start, N ∈ {2, 8,
+// 32, 64} goroutines, each with a random sequence of operations (queries, shaping with the font's
+// own scripts, language systems and features, font maps, loading the file or damaged variants of
+// it), GOMAXPROCS ∈ {2, 16} and per-operation scheduling actions (Gosched / tiny sleeps), all
+// drawn from the program. Only what the documentation declares shareable is shared (*font.Font
+// and package-level tables); faces, hb fonts, buffers, shapers, segmenters and font maps are
+// owned by one goroutine.
 //
 // Oracles:
 //  1. the package is built with -race and GORACE=halt_on_error=1 exitcode=66: the first data race
 //     kills the process while the journal ($VERIF_OUT/journal.json) names the running program; the
 //     driver re-runs that program through TestReplay (8 fresh processes × 3 runs) to confirm it;
-//  2. every goroutine's list of results must equal the list obtained by running its program
-//     alone, sequentially, on independently parsed instances of the same fonts.
+//  2. every result (prologue and goroutines) must equal the one obtained by running the prologue
+//     and then each goroutine's list alone, sequentially, on independently parsed instances of
+//     the same fonts.
 //
 // The concurrent run comes first and uses freshly parsed fonts, so that any lazily filled state
 // (on the Font or package-level) is first touched concurrently; the solitary reference run follows.
@@ -562,7 +567,6 @@ func genOp(t *rapid.T, pool []*poolFont, kind string, f int) Op {
 			op.Dmg = append(op.Dmg, genDamage(t, pf))
 		}
 	case kMeta:
-		op.A = rapid.IntRange(0, 40).Draw(t, "cmapentries")
 		op.V = genVars(t, pf)
 	case kHbFont:
 		op.G = genGids(t, pf, 4)
